@@ -13,7 +13,10 @@ EXCLUDE_PREFIX = ('benches/', 'locustdb-client/', 'target/')
 def ast_path(repo=None):
     repo = repo or facts.REPO
     d = facts.facts_dir(repo)
-    p = os.path.join(d, 'ast.json')
+    import hashlib
+    with open(os.path.join(facts.VERIF, 'astq', 'src', 'main.rs'), 'rb') as fh:
+        ver = hashlib.sha256(fh.read()).hexdigest()[:8]
+    p = os.path.join(d, 'ast-%s.json' % ver)
     if os.path.exists(p):
         return p
     if not os.path.exists(ASTQ):
